@@ -216,11 +216,20 @@ func GenStructAttCase(s Src) *StructAttCase {
 				c.Stats.Storage++
 			case 12: // forEachAttachment visits exactly the present set
 				emit("var cnt%d = 0", i)
-				emit("%s.forEachAttachment(fun (att: &AnyStructAttachment) { cnt%d = cnt%d + 1; if let t = att as? &C.SA { cnt%d = cnt%d + 100 + t.y } })", n, i, i, i, i)
+				if v.sa != nil && chance(s, 1, 2) {
+					// access the attachment, then mutate the base: the callback must read the current base
+					emit("log(%s[C.SA]?.y)", n)
+					logs = append(logs, fmt.Sprint(*v.sa))
+					x := s.Intn(50)
+					emit("%s.setX(%d)", n, x)
+					v.x = x
+					vars[n] = v
+				}
+				emit("%s.forEachAttachment(fun (att: &AnyStructAttachment) { cnt%d = cnt%d + 1; if let t = att as? &C.SA { cnt%d = cnt%d + 100 + t.y + 7 * t.baseX() } })", n, i, i, i, i)
 				emit("log(cnt%d)", i)
 				tot := 0
 				if v.sa != nil {
-					tot += 101 + *v.sa
+					tot += 101 + *v.sa + 7*v.x
 				}
 				if v.sb != nil {
 					tot++
